@@ -187,6 +187,7 @@ def c11_dir(job, drv):
         import signal as _signal
         import threading as _threading
         kw = {"kills": 0, "died_as_planned": 0, "bad": [], "examples": []}
+        hangs = 0
         if job.get("killed_writers", True):
             kstride = stride * int(job.get("kill_factor", 8))
             kks = [n for n in range(0, size) if n % S == rem and (n // S) % kstride == 0]
@@ -195,7 +196,6 @@ def c11_dir(job, drv):
             if job.get("kill_only") is not None:
                 kks = [k for k in job["kill_only"] if k < size]
             alarm_was, drv._alarm_ok = drv._alarm_ok, False
-            hangs = 0
 
             def timed(key, limit=4.0):
                 box = {}
@@ -240,8 +240,27 @@ def c11_dir(job, drv):
                             drv.serve_once(w.config, drv.s2b(rq["data"]), tls=rq["tls"])
                         finally:
                             os._exit(0)
-                    _, status = os.waitpid(pid, 0)
+                    t_end = time.time() + 6
+                    status = None
+                    while time.time() < t_end:
+                        wp, st_ = os.waitpid(pid, os.WNOHANG)
+                        if wp:
+                            status = st_
+                            break
+                        time.sleep(0.005)
                     kw["kills"] += 1
+                    if status is None:
+                        # the would-be writer itself never got as far as writing (it hangs): remove it, count the hang
+                        os.kill(pid, _signal.SIGKILL)
+                        os.waitpid(pid, 0)
+                        hangs += 1
+                        kw["bad"].append([k, "hang"])
+                        if sum(1 for e in kw["examples"] if e["class"] == "hang") < 2:
+                            left = sorted(fn for fn in os.listdir(os.path.dirname(cachepath)) if fn.startswith(".cache"))
+                            kw["examples"].append({"writer_killed_after_bytes": k, "step": "the next writing request (in its own process)",
+                                                   "class": "hang", "error": "still running after 6 s",
+                                                   "cache_files_left_by_the_dead_writer": left})
+                        continue
                     if os.WIFSIGNALED(status):
                         kw["died_as_planned"] += 1
                     for step in ("first request after the writer was killed", "second request"):
@@ -267,7 +286,8 @@ def c11_dir(job, drv):
         # zero-filled file of the full length, and a few other full-length garbage files
         others = {}
         fails = {"empty": [], "wrong": []}
-        for label, data in ((("zero-filled", bytes(size)), ("ff-filled", b"\xff" * size)) if first else ()):
+        # (after a hang the directory is poisoned -- requests would only run into the time limit)
+        for label, data in ((("zero-filled", bytes(size)), ("ff-filled", b"\xff" * size)) if first and not hangs else ()):
             others[label] = attempt(label, size, data, seq[len(label) % len(seq)])
         # ---- codec facts on the real pickle ----
         undecodable = 0
@@ -398,6 +418,116 @@ def c11_zip(job, drv):
         w.close()
 
 
+def c11_zip_sched(job, drv):
+    """Two or three requests for the same ZIP archive in flight, paused at every access to the stored index
+    (shelve.open, every record written, every record read from a stored index), run under a schedule; each answer is
+    compared with the answer the request gets alone.  The pauses are installed from outside by giving
+    handlers/ZIP.py a `shelve` whose shelves announce their accesses."""
+    import implops_c10 as h
+    import implops_c14 as g
+    import threading
+    import shelve as real_shelve
+    import pygopherd.handlers.ZIP as Z
+    w = drv.World({"tree": job["tree"], "config": job["config"]})
+    alarm_was, drv._alarm_ok = drv._alarm_ok, False
+    orig_shelve = Z.shelve
+    try:
+        reqs = job["requests"]
+        refs = {}
+        for nm in set(job["names"]):
+            rq = reqs[nm]
+            r = drv.serve_once(w.config, drv.s2b(rq["data"]), tls=rq["tls"])
+            refs[nm] = h.mask(drv.s2b(r["out"]))
+        gates = g.Gates()
+
+        class Shelf:
+            def __init__(self, real, flag):
+                self._r, self._flag = real, flag
+
+            def __setitem__(self, k, v):
+                gates.gate("zput")
+                self._r[k] = v
+
+            def __getitem__(self, k):
+                if self._flag == "r":
+                    gates.gate("zget")
+                return self._r[k]
+
+            def __contains__(self, k):
+                return k in self._r
+
+            def __enter__(self):
+                return self
+
+            def __exit__(self, *a):
+                self._r.close()
+                return False
+
+            def __getattr__(self, name):
+                return getattr(self._r, name)
+
+        class ShelveShim:
+            @staticmethod
+            def open(path, flag="c", *a, **k):
+                gates.gate("zopen-" + flag)
+                return Shelf(real_shelve.open(path, flag, *a, **k), flag)
+
+        Z.shelve = ShelveShim
+        n = len(job["names"])
+        results = [None] * n
+
+        def worker(tid):
+            g._tls.tid = tid
+            try:
+                rq = reqs[job["names"][tid]]
+                results[tid] = drv.serve_once(w.config, drv.s2b(rq["data"]), tls=rq["tls"])
+            except BaseException as e:   # noqa
+                results[tid] = {"out": "", "exc": "harness:" + repr(e), "log": []}
+            finally:
+                gates.finish(tid)
+
+        threads = [threading.Thread(target=worker, args=(i,), daemon=True) for i in range(n)]
+        blocked = None
+        try:
+            try:
+                for i, t_ in enumerate(threads):
+                    t_.start()
+                    gates.settle(i, timeout=3)
+                for tid in job["sched"]:
+                    gates.grant(tid)
+            except g.Blocked as e:
+                blocked = str(e)
+            gates.release_all()
+            deadline = time.time() + 6
+            for t_ in threads:
+                t_.join(max(0.0, deadline - time.time()))
+        finally:
+            gates.release_all()
+            Z.shelve = orig_shelve
+        obs, detail = [], []
+        for i in range(n):
+            nm = job["names"][i]
+            r = results[i] or {"out": "", "exc": "no result", "log": []}
+            out = h.mask(drv.s2b(r["out"]))
+            if threads[i].is_alive():
+                o = "hang"
+            elif out == refs[nm] and not r["exc"]:
+                o = "ok"
+            elif not out or r["exc"]:
+                o = "empty"
+            else:
+                o = "wrong"
+            obs.append(o)
+            detail.append({"request": nm, "obs": o, "got": drv.b2s(out[:200]), "expected": drv.b2s(refs[nm][:200]),
+                           "exception": r["exc"], "log": [x for x in r["log"] if "EXCEPTION" in x][-2:]})
+        return {"obs": obs, "detail": detail, "gate_trace": gates.trace, "blocked": blocked}
+    finally:
+        Z.shelve = orig_shelve
+        drv._alarm_ok = alarm_was
+        w.close()
+
+
 def register(OPS, drv):
+    OPS["c11_zip_sched"] = lambda job: c11_zip_sched(job, drv)
     OPS["c11_dir"] = lambda job: c11_dir(job, drv)
     OPS["c11_zip"] = lambda job: c11_zip(job, drv)
